@@ -333,6 +333,20 @@ def execStmt (ctx : Ctx) : Stmt → Except PyErr Ctx
   | .del n =>
     if Env.contains ctx n then .ok (Env.erase ctx n) else err "NameError" s!"name '{n}' is not defined"
   | .exprS e => do let _ ← eval ctx e; return ctx
+  | .mutItemCall n i m args => do
+    -- `n[i].m(args)`: an in-place change of a nested container (no aliasing in the fragment)
+    let outer ← lookupName ctx n
+    let iv ← eval ctx i
+    let inner ← doIndex outer iv
+    let vs ← args.mapM (eval ctx)
+    let inner' ← match inner, m, vs with
+      | .list l, "append", [v] => pure (PV.list (l ++ [v]))
+      | .list l, "extend", [v] => do pure (PV.list (l ++ (← toIter v)))
+      | .list l, "pop", [] => if l.isEmpty then err "IndexError" "pop from empty list" else pure (PV.list l.dropLast)
+      | .list _, "clear", [] => pure (PV.list [])
+      | .dict d, "update", [.dict o] => pure (PV.dict (Env.update d o))
+      | _, _, _ => err "Unmodelled" s!"nested mutator {m}"
+    return Env.set ctx n (← setIndex outer iv inner')
   | .mutCall n m args => do
     let cur ← lookupName ctx n
     let vs ← args.mapM (eval ctx)
